@@ -199,6 +199,13 @@ func (d *diskState) configure(c *synchronization.Configuration) {
 		c.IgnoreSyntax = ignore.Syntax_SyntaxDocker
 		c.Ignores = []string{"*.ign", "**/*.ign", "ig", "!ig/a/b/keep"}
 	}
+	if d.h.plan.C("docker_ignores") == 2 {
+		// An ignored directory below a tracked one, with an exception that does
+		// get created, synchronized and removed again (C04: the directory goes
+		// from phantom to tracked and stays tracked through the ancestor).
+		c.IgnoreSyntax = ignore.Syntax_SyntaxDocker
+		c.Ignores = []string{"*.ign", "**/*.ign", "a/gen", "!a/gen/keep"}
+	}
 	if d.h.plan.C("internal_staging") == 1 {
 		c.StageMode = synchronization.StageMode_StageModeInternal
 	}
@@ -666,6 +673,9 @@ func (d *diskState) walk(abs, rel string, top bool) *core.Entry {
 	st, err := os.Lstat(abs)
 	if err != nil {
 		return nil
+	}
+	if strings.HasPrefix(rel, "a/gen/") && rel != "a/gen/keep" && d.h.plan.C("docker_ignores") == 2 {
+		return &core.Entry{Kind: core.EntryKind_Untracked}
 	}
 	if (rel == "ig" || strings.HasPrefix(rel, "ig/")) && d.h.plan.C("docker_ignores") == 1 {
 		// Ignored wholesale (the harness's own reading of the two patterns).
@@ -1296,6 +1306,16 @@ func (e *diskEndpoint) Scan(ctx context.Context, ancestor *core.Entry, full bool
 // directory traversed under an ignore mask without anything trackable in it
 // (Docker-style ignores) is untracked content.
 func (d *diskState) comparable(snapshot *core.Entry) *core.Entry {
+	if d.h.plan.C("docker_ignores") == 2 {
+		// (A directory traversed under a mask is a directory to the walk.)
+		out := cloneEntry(snapshot)
+		walk(out, "", func(_ string, e *core.Entry) {
+			if e.Kind == core.EntryKind_PhantomDirectory {
+				e.Kind = core.EntryKind_Directory
+			}
+		})
+		return out
+	}
 	if d.h.plan.C("docker_ignores") != 1 || snapshot == nil || snapshot.Kind != core.EntryKind_Directory {
 		return snapshot
 	}
